@@ -291,6 +291,78 @@ pub fn run(ctx: &Ctx) -> Outcome {
         rep.count("backend_single_blocks", (c1[0] - c0[0]) + (c1[3] - c0[3]));
         rep.finish()
     });
+    // (1d) closure scripts: every sequence of <= 3 (thorough: 4 for narrow backends) backend calls -- a full parallel group, a
+    // single block, a tail of one or two blocks, each through the InOut or the in-place backend method -- made by a
+    // caller-supplied closure inside ONE *_with_backend / process_with_backend session, followed by an ordinary single-block
+    // call; nothing merged.  This is the general form of the fixed closure shapes used elsewhere.
+    // (harness-cipher configurations: their width is known exactly, which sizing a script needs)
+    let script_units: Vec<(&Cfg, &'static str, Dir)> = units.iter().filter(|(c, _, _)| c.is_toy()).cloned().collect();
+    let r1d = par_map(&script_units, |(cfg, fam, dir)| {
+        let mut rep = Report::new(format!("{}/{}-{}/scripts", cfg.name, fam, dir.s()));
+        let bs = cfg.bs;
+        let par = cfg.par;
+        let iv_len = if *fam == "ige" { 2 * bs } else { bs };
+        let key = &keys(seed, cfg.key_len)[0];
+        let is_bm = matches!(*fam, "cbc" | "pcbc" | "ige" | "cfb" | "cfb8" | "ofb");
+        let depth = if par <= 4 { tier.pick(3, 4) } else { 3 };
+        // the op alphabet: stream backends have no in-place variants; tails of two blocks need width >= 3
+        let mut ops: Vec<u8> = if is_bm { vec![0, 1, 2, 3, 4, 5, 6, 7] } else { vec![0, 2, 4, 6] };
+        if par < 3 {
+            ops.retain(|o| *o < 6);
+        }
+        if par < 2 {
+            ops.retain(|o| *o < 4);
+        }
+        let mut scripts: Vec<Vec<u8>> = ops.iter().map(|o| vec![*o]).collect();
+        let mut last = scripts.clone();
+        for _ in 1..depth {
+            last = last.iter().flat_map(|s| ops.iter().map(move |o| { let mut t = s.clone(); t.push(*o); t })).collect();
+            scripts.extend(last.iter().cloned());
+        }
+        rep.count("closure_scripts", scripts.len() as u64);
+        let bm = if is_bm { cfg.block_mode(fam, *dir) } else { None };
+        let core = if is_bm && *fam != "ofb" { None } else { cfg.core(fam) };
+        let g = bm.map(|d| d.mbs).unwrap_or(bs);
+        let nmax = depth * par.max(2) + 1;
+        let iv = pattern(seed, 0x1717, iv_len);
+        let data = pattern(seed, 0xC07D, (nmax + 1) * g);
+        let want = fam_ref(cfg, fam, *dir, key, &iv, &data, g);
+        for script in &scripts {
+            // room for the widest possible interpretation; the closure reports how many blocks it really processed
+            let room = base::api::script_blocks(script, par.max(1));
+            if let Some(d) = bm {
+                rep.case(|| {
+                    let mut obj = crate::rec::bm(cfg, d, key, &iv);
+                    let mut buf = data[..(room + 1) * g].to_vec();
+                    let n = obj.many_script(script, &mut buf[..room * g]);
+                    ensure!(n <= room, "MACHINERY", "harness: script consumed more than the room given");
+                    let st = obj.iv_state();
+                    obj.one(Kind::InPlace, &[], &mut buf[n * g..(n + 1) * g]);
+                    let got = &buf[..(n + 1) * g];
+                    ensure!(got == &want.out[..(n + 1) * g], format!("output/{}-{}/script", fam, dir.s()), "{}: caller-supplied closure making the backend calls {:?} in one session (0/1 = parallel group, 2/3 = single block, 4/5 = tail of 1, 6/7 = tail of 2; odd = in-place method; {} blocks), then one ordinary block: {} want {} (first diff at byte {:?})", d.ty, script, n, short(got), short(&want.out[..(n + 1) * g]), first_diff(got, &want.out[..(n + 1) * g]));
+                    ensure!(st == want.states[n], format!("chaining_state/{}-{}/script", fam, dir.s()), "{}: chaining state after the closure script {:?} is {} want {}", d.ty, script, short(&st), short(&want.states[n]));
+                    Ok(())
+                });
+            }
+            if let (Some(d), true) = (core, *dir == Dir::Enc) {
+                rep.case(|| {
+                    let mut obj = crate::rec::core(cfg, d, key, &iv);
+                    let mut ks = dirty(room * bs);
+                    let n = obj.write_script(script, &mut ks);
+                    ensure!(n <= room, "MACHINERY", "harness: script consumed more than the room given");
+                    let st = obj.iv_state();
+                    let mut probe = data[n * bs..(n + 1) * bs].to_vec();
+                    obj.apply_block(Kind::InPlace, &[], &mut probe);
+                    let mut out = base::refmodel::x(&data[..n * bs], &ks[..n * bs]);
+                    out.extend(probe);
+                    ensure!(out == want.out[..(n + 1) * bs], format!("output/{}/core-script", fam), "{}: caller-supplied closure making the backend calls {:?} in one process_with_backend session, then one ordinary block: {} want {} (first diff at byte {:?})", d.ty, script, short(&out), short(&want.out[..(n + 1) * bs]), first_diff(&out, &want.out[..(n + 1) * bs]));
+                    ensure!(st == want.states[n], format!("chaining_state/{}/core-script", fam), "{}: exported state after the closure script {:?} is {} want {}", d.ty, script, short(&st), short(&want.states[n]));
+                    Ok(())
+                });
+            }
+        }
+        rep.finish()
+    });
     // (4) width independence: identical inputs under every width available for a (cipher, block size)
     let mut groups: std::collections::BTreeMap<(String, usize), Vec<&Cfg>> = Default::default();
     for c in &cfgs {
@@ -368,6 +440,7 @@ pub fn run(ctx: &Ctx) -> Outcome {
         rep.finish()
     });
     let mut o = merge(reports);
+    extend(&mut o, merge(r1d));
     extend(&mut o, merge(r4));
     o.rule = "per block-oriented entry point (cbc, pcbc, ige, cfb, cfb8 as 1-byte blocks, ofb as encryptor/decryptor/core, the six CTR cores and the BelT core through apply_keystream_blocks and write_keystream_blocks): (1) stateless: ALL compositions of n blocks into calls x {in place, b2b} per piece, one-block pieces through the single-block entry points; (2) deviation-bounded: every set of <= k split points on a 4*PAR+3 block input, in place and b2b; (3) merged BFS over call sizes {1,2,PAR-1,PAR,PAR+1,2PAR,2PAR+1,3PAR+1} x kind with the singleton-canonical-state-per-offset invariant (key = blocks consumed, exported state, output of a two-block probe); (4) identical inputs under every parallel width of the same block size, including the CTS one-shots. Oracle: bytes and chaining state after every call equal the reference (= the one-block-at-a-time run)".into();
     o.configs = cfgs.iter().map(|c| c.name.clone()).collect();
